@@ -191,6 +191,17 @@ impl PdfError {
             _ => false
         }
     }
+    /// The root cause is a reference to an object that is free, undefined or beyond the cross-reference table.
+    /// Such a reference is not an error: it refers to the null object (ISO 32000-1, 7.3.10).
+    pub fn is_missing_object(&self) -> bool {
+        match self {
+            PdfError::NullRef { .. } | PdfError::FreeObject { .. } | PdfError::UnspecifiedXRefEntry { .. } => true,
+            PdfError::Try { ref source, .. } => source.is_missing_object(),
+            PdfError::FromPrimitive { ref source, .. } => source.is_missing_object(),
+            PdfError::Shared { ref source } => source.is_missing_object(),
+            _ => false
+        }
+    }
 }
 datasize::non_dynamic_const_heap_size!(PdfError, 0);
 
